@@ -1703,9 +1703,11 @@ func runLoopback(seed int64, nb int, withF4 bool) (map[string]any, map[string]an
 
 // replayAnyLoopback dispatches loopback cases to the pair, wire and pool drivers.
 func replayAnyLoopback(cs []*Case) map[string]any {
-	var pair, other, inject []*Case
+	var pair, other, inject, dual []*Case
 	for _, c := range cs {
-		if c.Pass == "wire_partial" || c.Pass == "wire_eio" {
+		if strings.HasPrefix(c.Pass, "dual_") {
+			dual = append(dual, c)
+		} else if c.Pass == "wire_partial" || c.Pass == "wire_eio" {
 			inject = append(inject, c)
 		} else if strings.HasPrefix(c.Pass, "wire_") || strings.HasPrefix(c.Pass, "pool_") {
 			other = append(other, c)
@@ -1721,6 +1723,9 @@ func replayAnyLoopback(cs []*Case) map[string]any {
 		lb[k] = v
 	}
 	for k, v := range replayLoopback3(inject) {
+		lb[k] = v
+	}
+	for k, v := range replayLoopback4(dual) {
 		lb[k] = v
 	}
 	return lb
@@ -1943,6 +1948,9 @@ func main() {
 				lb[k] = v
 			}
 			for k, v := range runLoopback3(*seed, *lbatches) {
+				lb[k] = v
+			}
+			for k, v := range runLoopback4(*seed, *lbatches) {
 				lb[k] = v
 			}
 			if len(lbCases) > 0 {
